@@ -4,6 +4,10 @@ from vlib import hx
 
 SRCS = ["alg/sha256.c", "alg/sha1.c", "alg/md5.c", "alg/crc32c.c", "util/insecure_memzero.c"]
 MODULES = ["Percival.Properties.C01"]
+# published vectors proved by kernel evaluation: built (and grepped for banned tokens) on every run; labelled tests
+# guarding the Spec, they contain `example`s only, so they add no obligations
+KAT_MODULES = ["Percival.KAT.Sha256", "Percival.KAT.Sha1", "Percival.KAT.Md5", "Percival.KAT.HmacSha256",
+               "Percival.KAT.HmacSha1", "Percival.KAT.HmacMd5", "Percival.KAT.Pbkdf2", "Percival.KAT.Crc32c"]
 ALGS = ["sha256", "sha1", "md5"]
 
 # lengths around every padding / block boundary (r = 55/56 one-vs-two final blocks, 63/64 block edge, 119/120 second block)
@@ -66,7 +70,7 @@ def partition(r, msg):
 
 def gen_hash(rng, tier, mult):
     quick = tier == "quick"
-    n = (260 if quick else 4000) * mult
+    n = (1200 if quick else 30000) * mult
     cases = []
     for ci in range(n):
         r = rng.fork("s%d" % ci)
@@ -132,7 +136,7 @@ def gen_hash(rng, tier, mult):
 
 def gen_crc(rng, tier, mult):
     quick = tier == "quick"
-    n = (260 if quick else 4000) * mult
+    n = (800 if quick else 15000) * mult
     cases = []
     for ci in range(n):
         r = rng.fork("c%d" % ci)
@@ -232,11 +236,39 @@ def components(ctx):
     ]
 
 
+RFC7914_2 = ("pbkdf2 50617373776f7264 4e61436c 80000 64",   # P = "Password", S = "NaCl", c = 80000, dkLen = 64
+             "4ddcd8f60b98be21830cee5ef22701f9641a4418d04c0414aeff08876b34ab56a1d425a1225833549adb841b51c9b3176a272bdebba1d078478f62b397f33c8d")
+
+
+def big_kat(ctx):
+    """RFC 7914 section 11, second PBKDF2-HMAC-SHA256 vector: too slow for the kernel (640 000 compressions), so the
+    compiled Spec and model are run on it (thorough tier) and compared with the published value.  Labelled test."""
+    r = vlib.run([vlib.PMODEL, "hash"], input="case 0\n%s\n" % RFC7914_2[0])
+    want = "%s | d=%s" % (RFC7914_2[1], RFC7914_2[1])
+    lines = r.stdout.split("\n")
+    if r.returncode != 0 or len(lines) < 2 or lines[1] != want:
+        ctx.proof_ok = False
+        ctx.proof_msgs.append("KAT RFC 7914 #2 (c=80000): Spec/model gave %r" % (lines[1:2],))
+        return "FAILED"
+    return "ok"
+
+
 def check(ctx):
-    return vlib.standard_check(
-        ctx, MODULES, components(ctx),
-        assumptions=["messages shorter than 2^64 bits (the standards are not defined beyond; the model's counter wraps like the C's)",
-                     "PBKDF2: c >= 1 and dkLen <= 32*(2^32-1) as RFC 8018 requires (c = 0 behaves as c = 1 in the C)",
-                     "portable code paths only (cpusupport config empty); SHA-NI/SSE2/SSE4.2/ARM paths are property C03"],
-        trusted=["pmodel (compiled Lean model and Spec)", "harness/h_hash.c", "tools/extractors/c01.py (constants + macro-shape comparison)",
-                 "gcc ASan/UBSan as the out-of-bounds detector in the real code"])
+    explanation = ["labelled tests (not obligations): published vectors proved by kernel evaluation in " + ", ".join(KAT_MODULES)]
+    ctx.assumptions += [
+        "messages shorter than 2^64 bits (the standards are not defined beyond; the model's counter wraps like the C's)",
+        "PBKDF2: c >= 1 and dkLen <= 32*(2^32-1) as RFC 8018 requires (c = 0 behaves as c = 1 in the C)",
+        "portable code paths only (cpusupport config empty); SHA-NI/SSE2/SSE4.2/ARM paths are property C03"]
+    ctx.trusted += ["pmodel (compiled Lean model and Spec)", "harness/h_hash.c",
+                    "tools/extractors/c01.py (constants + textual comparison of the macro bodies and loop skeletons)",
+                    "gcc ASan/UBSan as the out-of-bounds detector in the real code"]
+    vlib.proof_audit(ctx, MODULES + KAT_MODULES)
+    if ctx.tier == "thorough" and ctx.proof_ok:
+        explanation.append("RFC 7914 section 11 vector 2 (c = 80000) through the compiled Spec and model: " + big_kat(ctx))
+    for comp in components(ctx):
+        ctx.rules.append("%s: %s" % (comp.name, comp.rule))
+        fails = vlib.check_component(ctx, comp)
+        if not ctx.proof_ok and not [f for f in fails if f["kind"] == "L1"]:
+            fails += vlib.check_component(ctx, comp, budget_mult=10)     # broken proof: enlarge the search
+        vlib.process_failures(ctx, comp, fails)
+    return vlib.finish(ctx, "proof", MODULES + KAT_MODULES, "; ".join(explanation))
